@@ -13,6 +13,9 @@ VERIF = os.path.dirname(os.path.dirname(os.path.abspath(__file__)))
 cid = a.name[:3]
 patch = os.path.join(VERIF, 'seeded', a.name, 'patch.diff')
 out = os.path.join(VERIF, 'corpus', cid, f'seed-{a.name}.json')
+if os.path.exists(out) and not os.environ.get('S2C_FORCE'):
+    print(f'{a.name} already pinned')
+    sys.exit(0)
 tmp = tempfile.mkdtemp(prefix='s2c-')
 try:
     verdict = None
